@@ -57,8 +57,28 @@ def _m_move_in_fused_loop(case, clause, detail, finding):
             and bool(d.get("extra")))
 
 
+def _m_clb_fused_mixed_offsets(case, clause, detail, finding):
+    '''A go_offset_any kernel and a kernel with a definite offset (same point
+    type, same built-in space) are fused and given constant loop bounds (either
+    order): the two loops have different constant bounds (the go_offset_any row of
+    the table), fusion compares only the space name, and the kernel with the
+    definite offset runs over the other one's bounds.'''
+    ops = case["hist"].split("+")
+    ks = case["kernels"]
+    if len(ks) != 2 or "CLB" not in ops or not {"FUSE", "FUSEO"} & set(ops):
+        return False
+    offs = [k["off"] for k in ks]
+    label = detail["witness"].get("kernel", "")
+    idx = 0 if label.startswith("ka_") else 1
+    return (clause == "VisitedEqualsRegion" and offs[0] != offs[1]
+            and "go_offset_any" in offs and offs[idx] != "go_offset_any"
+            and all(k["sp"]["name"] in B.META_SP for k in ks)
+            and ks[0]["pt"] == ks[1]["pt"] and ks[0]["pt"] != "go_every")
+
+
 MATCHERS = {"fuse_same_name_other_offset": _m_fuse_same_name_other_offset,
-            "move_in_fused_loop": _m_move_in_fused_loop}
+            "move_in_fused_loop": _m_move_in_fused_loop,
+            "clb_fused_mixed_offsets": _m_clb_fused_mixed_offsets}
 
 
 # ------------------------------------------------------------------ helpers
